@@ -258,12 +258,121 @@ def _judge_stream(chk: Check, obs: dict[str, Any]) -> None:
         )
 
 
+async def _real_datagram_send_after_close() -> dict[str, Any]:
+    """The datagram transport the library builds on a real connected UDP socket: a send after the connection is gone fails with a
+    connection error (not with whatever the event loop's transport trips over)."""
+    from easynetwork.lowlevel.api_async.backend._asyncio.backend import AsyncIOBackend
+
+    obs: dict[str, Any] = {"kind": "real-connected", "scenario": "send_after_close"}
+    a, b = harness.loopback_udp_pair()
+    try:
+        t = await AsyncIOBackend().wrap_connected_datagram_socket(a)
+        await t.send(b"first")
+        await asyncio.sleep(0.01)
+        obs["datagram_sent"] = b.recv(100) == b"first"
+        await t.aclose()
+        for i in range(2):
+            try:
+                await t.send(b"late")
+                obs[f"late_send_{i}_fails"] = False
+            except OSError:
+                obs[f"late_send_{i}_fails"] = True
+            except Exception as exc:  # noqa: BLE001
+                obs[f"late_send_{i}_fails_with_a_connection_error_not_{type(exc).__name__}"] = False
+    finally:
+        a.close()
+        b.close()
+    return obs
+
+
+async def _accepted_socket_backpressure() -> dict[str, Any]:
+    """A connection accepted by the library's own TCP listener: with the kernel's send buffer full and the peer not reading, even a small
+    send_all() stays suspended (nothing may sit in a user-space buffer behind a send that returned)."""
+    import os
+
+    from easynetwork.lowlevel.api_async.backend._asyncio.backend import AsyncIOBackend
+    from easynetwork.lowlevel.socket import INETSocketAttribute
+
+    obs: dict[str, Any] = {"kind": "accepted-socket", "scenario": "small_send_behind_a_full_kernel_buffer"}
+    backend = AsyncIOBackend()
+    listeners = await backend.create_tcp_listeners("127.0.0.1", 0, backlog=5)
+    lst = listeners[0]
+    got: list[Any] = []
+    ready = asyncio.Event()
+
+    async def handler(stream: Any) -> None:
+        got.append(stream)
+        ready.set()
+        await asyncio.sleep(3600)
+
+    serve = asyncio.ensure_future(lst.serve(handler))
+    peer = socket.socket(socket.AF_INET, socket.SOCK_STREAM)
+    peer.setsockopt(socket.SOL_SOCKET, socket.SO_RCVBUF, 4096)
+    dupfd = -1
+    try:
+        peer.setblocking(False)
+        try:
+            peer.connect(lst.extra(INETSocketAttribute.sockname))
+        except BlockingIOError:
+            pass
+        await asyncio.wait_for(ready.wait(), 5)
+        stream = got[0]
+        sock = stream.extra(INETSocketAttribute.socket)
+        dupfd = os.dup(sock.fileno())
+        raw = socket.socket(fileno=dupfd)
+        raw.setblocking(False)
+        filled = 0
+        for _ in range(100000):
+            try:
+                filled += raw.send(b"k" * 65536)
+            except BlockingIOError:
+                break
+        obs["kernel_buffer_filled"] = filled > 0
+        t = asyncio.ensure_future(stream.send_all(b"s" * 512))
+        for _ in range(30):
+            await asyncio.sleep(0.002)
+        obs["small_send_suspended_while_the_peer_does_not_read"] = not t.done()
+        total = filled + 512
+        n = 0
+        for _ in range(20000):
+            try:
+                d = peer.recv(1 << 20)
+                if not d:
+                    break
+                n += len(d)
+            except BlockingIOError:
+                await asyncio.sleep(0.001)
+            if n >= total and t.done():
+                break
+        obs["small_send_resumed_when_the_peer_reads"] = t.done() and t.exception() is None
+        obs["peer_got_everything"] = n == total
+        if not t.done():
+            t.cancel()
+        raw.detach()
+    finally:
+        serve.cancel()
+        await asyncio.gather(serve, return_exceptions=True)
+        for st in got:
+            try:
+                await asyncio.wait_for(st.aclose(), 2)
+            except BaseException:  # noqa: BLE001
+                pass
+        await lst.aclose()
+        if dupfd >= 0:
+            try:
+                os.close(dupfd)
+            except OSError:
+                pass
+        peer.close()
+    return obs
+
+
 def _judge_datagram(chk: Check, obs: dict[str, Any]) -> None:
     bad = [k for k, v in obs.items() if isinstance(v, bool) and not v]
     if bad:
         chk.violation(
             {"kind": "adapter", "adapter": "datagram-" + obs["kind"], "what": ",".join(sorted(bad))},
-            f"asyncio datagram {obs['kind']} adapter, scenario {obs['scenario']}: failed expectations {bad}",
+            f"asyncio {obs['kind']} adapter, scenario {obs['scenario']}: failed expectations {bad}",
             {"kind": "datagram_scenario", "observations": obs},
         )
 
@@ -285,4 +394,10 @@ def run(chk: Check) -> None:
             chk.traces += 1
             chk.distinct.add(("datagram", kind, scenario))
             n += 1
+    for fn in (_real_datagram_send_after_close, _accepted_socket_backpressure):
+        obs = asyncio.run(fn())
+        _judge_datagram(chk, obs)
+        chk.traces += 1
+        chk.distinct.add(("real", obs["kind"], obs["scenario"]))
+        n += 1
     chk.extra["adapter_scenarios"] = n
